@@ -407,6 +407,19 @@ def side_choices(sh):
         yield {p: c for (p, _), c in zip(paths, combo)}
 
 
+def mixed_case(mt):
+    """Every other constituent label in mixed case (`Vpinf01`, `Sß1` - French-treebank style categories): a label is
+    data, the transition names must carry it character by character."""
+    def rec(nd, depth):
+        if isinstance(nd, int):
+            return nd
+        lab = nd[0]
+        if lab.startswith('N') and depth:
+            lab = ('Vpinf' if len(lab) % 2 else 'S\u00df') + lab[1:]
+        return (lab, nd[1], tuple(rec(k, depth + 1) for k in nd[2]))
+    return model.MT(mt.sid, mt.toks, rec(mt.root, 0))
+
+
 def run_chunk(chunk):
     res = Result()
     with quiet():
@@ -426,7 +439,7 @@ def run_chunk(chunk):
             cont = model.is_continuous(sh)
             choices = [next(iter(side_choices(sh)))] if chunk['kind'] == 'inorder' else side_choices(sh)
             for choice in choices:
-                mt = assign_heads(sh, choice)
+                mt = mixed_case(assign_heads(sh, choice))
                 j = mt.to_json()
                 for system in systems:
                     if system == 'topdown' and not cont:
